@@ -167,7 +167,7 @@ func buildOps() []op {
 			})
 		}
 	}
-	for _, other := range allLists(3, []string{"x"}) {
+	for _, other := range allLists(4, []string{"x"}) {
 		other := other
 		ops = append(ops, op{
 			name: "MergeFrom(" + showRef(other) + ")",
@@ -233,7 +233,7 @@ func main() {
 	kit.Main(&kit.Check{
 		ID:    "C39",
 		Level: "model_checking",
-		Rule: "Part A: every (state, operation) pair of the complete state graph of b6.Tags over keys {a,b,c,d} (+ never-present e) and values {x,y}; a pair is non-trivial when the operation changes the reference list. " +
+		Rule: "Part A: every (state, operation) pair of the complete state graph of b6.Tags over keys {a,b,c,d} (+ never-present e) and values {x,y}; each state in three layouts of its backing array (exact capacity, 1 and 2 spare slots holding stale tags); a pair is non-trivial when the operation changes the reference list. " +
 			"Part B: every operation sequence from the empty list up to the depth bound on one live value, no deduplication. Oracle: ordered association list; every Get after every step.",
 		Assumptions: []string{"tag values are immutable string expressions", "keys within a list are distinct (the statement's precondition; preserved by every operation of the alphabet)"},
 		Build: func(tier string) (kit.Space, string) {
@@ -248,17 +248,31 @@ func main() {
 				var r kit.Result
 				if i < nA {
 					st := states[i]
-					for _, o := range ops {
-						t := toTags(st)
-						nl, ok := step(&r, &t, st, o, "state "+showRef(st))
-						r.Transitions++
-						if ok && showRef(nl) != showRef(st) {
-							r.Distinct++
+					// every state in three layouts of its backing array: exact
+					// capacity, and 1 or 2 spare slots holding stale tags (what
+					// removals and append's growth leave behind on a live list)
+					for spare := 0; spare <= 2; spare++ {
+						for _, o := range ops {
+							exact := toTags(st)
+							t := make(b6.Tags, len(exact), len(exact)+spare)
+							copy(t, exact)
+							for k := 0; k < spare; k++ {
+								t[:cap(t)][len(exact)+k] = b6.Tag{Key: "stale", Value: b6.NewStringExpression("z")}
+							}
+							hist := "state " + showRef(st)
+							if spare > 0 {
+								hist += fmt.Sprintf(" (+%d spare capacity)", spare)
+							}
+							nl, ok := step(&r, &t, st, o, hist)
+							r.Transitions++
+							if ok && showRef(nl) != showRef(st) {
+								r.Distinct++
+							}
+							r.AddOutcome(opClass(o.name) + "->len" + fmt.Sprint(len(nl)))
 						}
-						r.AddOutcome(opClass(o.name) + "->len" + fmt.Sprint(len(nl)))
 					}
-					r.States = 1
-					r.Evals = int64(len(ops))
+					r.States = 3
+					r.Evals = int64(3 * len(ops))
 					if i == 37 {
 						r.Sample = map[string]interface{}{"state": showRef(st), "ops": len(ops), "first_ops": []string{ops[0].name, ops[10].name, ops[20].name}}
 					}
@@ -295,7 +309,7 @@ func main() {
 					r.Sample = map[string]interface{}{"sequence_prefix": first.name, "depth": depth}
 				}
 				return r
-			}}, fmt.Sprintf("part A: %d states x %d ops (complete graph, fixpoint); part B: all sequences of depth <= %d over %d ops", len(states), len(ops), depth, len(ops))
+			}}, fmt.Sprintf("part A: %d states x 3 capacity layouts x %d ops (complete graph, fixpoint); part B: all sequences of depth <= %d over %d ops", len(states), len(ops), depth, len(ops))
 		},
 	})
 }
